@@ -429,6 +429,28 @@ def run(prog, rep):
         rep.violation('R5', loc(nxpg.module, wh), 'NetworkXPropertyGraph.get_nodes_on_path_with_hops', 'hop containment / shortest selection',
                       'a returned path must contain every requested hop and be the shortest such path found')
 
+    # ---- R7: what the one-graph-per-store flavour keeps is an undirected simple graph ----
+    rep.rule('R7', 'every graph object stored by the one-graph-per-store flavour is a fresh undirected nx.Graph', floor=2)
+    dj_ = nxg.storage_class(prog, nxg.DISJ_SHELL)
+    for mname, fn_ in sorted(dj_.methods.items()):
+        fn_i = nxg.method(prog, dj_, fn_)
+        for a in walk_no_nested(fn_i):
+            if not (isinstance(a, ast.Assign) and len(a.targets) == 1 and isinstance(a.targets[0], ast.Subscript) and
+                    ast.unparse(a.targets[0].value) == 'self.graphs'):
+                continue
+            v = a.value
+            if isinstance(v, ast.Name):
+                defs_ = [x.value for x in walk_no_nested(fn_i) if isinstance(x, ast.Assign) and any(isinstance(t, ast.Name) and t.id == v.id for t in x.targets)]
+                v = defs_[-1] if defs_ else v
+            fresh = isinstance(v, ast.Call) and ast.unparse(v.func) in ('nx.Graph', 'Graph', 'networkx.Graph')
+            rep.instance('R7', f'{dj_.name}.{mname}: stores {norm(v, 60)} (fresh undirected graph: {fresh})')
+            if not fresh:
+                rep.violation('R7', loc(dj_.module, a), f'{dj_.name}.{mname}', f'stores {norm(v, 60)}',
+                              f'{mname} keeps the imported networkx object (relabelled) as the stored graph: a directed GraphML '
+                              f'(what yEd and many tools write) stays an nx.DiGraph, so neighbour and path queries only follow '
+                              f'edges in their stored direction (parents are not found, child-to-parent paths are empty) while the '
+                              f'sibling entry point and the shared store rebuild an undirected nx.Graph')
+
     # ---- R6 ----
     schema = containment_schema(prog)
     apg = prog.cls('fim.graph.abc_property_graph:ABCPropertyGraph')
@@ -505,6 +527,9 @@ def _inside(node, container):
 NX = 'fim/graph/networkx_property_graph.py'
 MX = 'fim/graph/networkx_mixin.py'
 MUTANTS = [
+    {'name': 'direct-import-keeps-digraph', 'file': 'fim/graph/networkx_property_graph_disjoint.py', 'rule': 'R7',
+     'find': "                self.graphs[graph_id] = nx.Graph()\n                self.graphs[graph_id].add_nodes_from(temp_graph.nodes(data=True))\n                self.graphs[graph_id].add_edges_from(temp_graph.edges(data=True))\n                self.graph_node_ids[graph_id] = len(self.graphs[graph_id].nodes()) + 1\n            except Exception as e:\n                raise e\n            finally:\n                self.lock.release()\n\n        def del_graph",
+     'replace': "                self.graphs[graph_id] = temp_graph\n                self.graph_node_ids[graph_id] = len(self.graphs[graph_id].nodes()) + 1\n            except Exception as e:\n                raise e\n            finally:\n                self.lock.release()\n\n        def del_graph"},
     {'name': 'first-hop-drop-list-wrong-var', 'file': NX, 'rule': 'R1',
      'find': '            if graph.edges[(real_node, n)].get(self.NETWORKX_LABEL, None) != rel1:\n                neighbor_drop_list.append(n)',
      'replace': '            if graph.edges[(real_node, n)].get(self.NETWORKX_LABEL, None) != rel1:\n                neighbor_drop_list.append(real_node)'},
